@@ -2,7 +2,7 @@
 import os, sys, subprocess, threading, pty
 from . import repo
 
-def run_cli(script, args, stdin_mode='open', data=b'', timeout=180, env=None, hashseed='0'):
+def run_cli(script, args, stdin_mode='open', data=b'', timeout=180, env=None, hashseed='0', max_out=64 << 20):
     """stdin_mode: open (pipe kept open until the process ends) | eof (pipe closed at once) | lines (write data, then close) |
     lines_open (write data, keep open) | devnull | closed (fd 0 closed in the child) | pty (a terminal nobody types on)."""
     s = repo.scratch()
@@ -29,8 +29,24 @@ def run_cli(script, args, stdin_mode='open', data=b'', timeout=180, env=None, ha
         raise ValueError(stdin_mode)
     p = subprocess.Popen(cmd, **kw)
     out, err = [], []
-    t1 = threading.Thread(target=lambda: out.append(p.stdout.read()), daemon=True)
-    t2 = threading.Thread(target=lambda: err.append(p.stderr.read()), daemon=True)
+    def reader(stream, sink):
+        # bounded capture: a tool that never stops writing is killed instead of filling the memory
+        buf, n = [], 0
+        while True:
+            chunk = stream.read(1 << 16)
+            if not chunk:
+                break
+            n += len(chunk)
+            if n <= max_out:
+                buf.append(chunk)
+            else:
+                try:
+                    p.kill()
+                except Exception:
+                    pass
+        sink.append(b''.join(buf))
+    t1 = threading.Thread(target=reader, args=(p.stdout, out), daemon=True)
+    t2 = threading.Thread(target=reader, args=(p.stderr, err), daemon=True)
     t1.start(); t2.start()
     try:
         if stdin_mode == 'eof':
